@@ -21,6 +21,19 @@ reg("C18",
     outside="more evaluations/actions; wall-clock alarms; nested graphs (C09)",
     )
 
+# --- appended by the C01/C03 author: native-callback node (readiness gate + scheduler tail of node.cpp evaluate_impl)
+reg("C18",
+    name="C18_sched_native", src="harness/C18_sched_native.cpp",
+    anchor_files=["include/hgraph/runtime/node_scheduler.h", "src/hgraph/runtime/node.cpp", "src/hgraph/runtime/graph.cpp", "include/hgraph/runtime/node.h"],
+    quick=dict(defs=dict(NEMIT=2, OMAX=2, GMAX=2, DMAX=4, RDMAX=2), symx=dict(shards=16, **{"max-wall": 900})),
+    thorough=dict(defs=dict(NEMIT=2, OMAX=3, GMAX=3, DMAX=6, RDMAX=3), symx=dict(shards=16, **{"max-wall": 3000, "shard-depth": 8})),
+    reach=["end", "request_fired_while_not_ready", "notified_while_not_ready_before_pending_time", "second_request_from_run", "three_cycles"],
+    bounds='a NATIVE-callback compute node (NodeBuilder::native; readiness decided by node.cpp ready_to_evaluate from valid_inputs={a,b}) with inputs a (active) and b (passive or active, enumerated), both required, and a NodeScheduler: one wake-up requested in start() at start+d0 (d0 symbolic in [1,DMAX] us) and one in the first run at now+rd (rd symbolic in [0,RDMAX], 0 = none); sources a and b each emit 0..NEMIT values (count enumerated): first at start+off (off symbolic in [0,OMAX]), later ones after symbolic gaps in [1,GMAX]; payloads symbolic in [-1000,1000]; run window OMAX+GMAX*(NEMIT-1)+DMAX+RDMAX+2 us',
+    outside='more emissions/requests; tagged requests and cancel operations on a native node (static-node versions: C03_gate variant 4, C18_sched_graph); all_valid_inputs and more than two inputs on a native node; native nodes inside nested graphs; real-time executor',
+    assumptions=["the scheduler is probed between cycles through the node's NodeSchedulerState (NodeView::scheduler_state captured in start) with a detached NodeScheduler view",
+                 "the native node is wired with Wiring::add_node over the un-named TSB {a,b} input schema (hk/hk_native.h), its sources and sink are static nodes"],
+    )
+
 META = dict(
     level="bounded symbolic model checking of NodeScheduler (node_scheduler.h) against a mirror model of the pending requests - unit level (all operation "
           "sequences up to the bound, all requested times symbolic) and inside a real graph (node.cpp evaluate_impl re-arm/advance, graph.cpp schedule slot)",
